@@ -558,21 +558,34 @@ class Gen(object):
             # short-circuit: later operands are evaluated under the earlier ones
             vals = []
             saved = len(path.hyps)
+            guards, kept = [], []
             for v in n.values:
+                mark = len(path.hyps)
                 t = self.truth(ev(v))
+                # facts produced while evaluating this operand (callee postconditions, sqrt/int definitions) stay, guarded
+                # by the operands that must have held for it to be evaluated
+                for f in path.hyps[mark:]:
+                    kept.append(('implies', atom(z3.And(*guards)), f) if guards else f)
+                del path.hyps[mark:]
                 vals.append(t)
-                path.hyps.append(atom(t if isinstance(n.op, ast.And) else z3.Not(t)))
+                g = t if isinstance(n.op, ast.And) else z3.Not(t)
+                guards.append(g)
+                path.hyps.append(atom(g))
             del path.hyps[saved:]
+            path.hyps.extend(kept)
             return z3.And(*vals) if isinstance(n.op, ast.And) else z3.Or(*vals)
         if isinstance(n, ast.IfExp):
             c = self.truth(ev(n.test))
             saved = len(path.hyps)
             path.hyps.append(atom(c))
             a = ev(n.body)
+            kept = [('implies', atom(c), f) for f in path.hyps[saved + 1:]]
             del path.hyps[saved:]
             path.hyps.append(atom(z3.Not(c)))
             b = ev(n.orelse)
+            kept += [('implies', atom(z3.Not(c)), f) for f in path.hyps[saved + 1:]]
             del path.hyps[saved:]
+            path.hyps.extend(kept)
             a, b = unify(a, b)
             return z3.If(c, a, b)
         if isinstance(n, ast.Subscript):
@@ -630,9 +643,7 @@ class Gen(object):
         self.oblige('index-in-range@%d' % line, path, atom(z3.And(i >= 0, i < l.ln)), 'safety', line)
         return self.select(l, i)
 
-    def slice(self, l, s, path, line):
-        if s.step is not None:
-            raise Unsupported('slice step')
+    def slice_bounds(self, l, s, path):
         lo = self.expr(s.lower, path) if s.lower is not None else z3.IntVal(0)
         hi = self.expr(s.upper, path) if s.upper is not None else l.ln
 
@@ -643,7 +654,12 @@ class Gen(object):
         lo, hi = normi(lo, s.lower), normi(hi, s.upper)
         # clamp as Python does
         clamp = lambda v: z3.If(v < 0, z3.IntVal(0), z3.If(v > l.ln, l.ln, v))
-        lo, hi = clamp(lo), clamp(hi)
+        return z3.simplify(clamp(lo)), z3.simplify(clamp(hi))
+
+    def slice(self, l, s, path, line):
+        if s.step is not None:
+            raise Unsupported('slice step')
+        lo, hi = self.slice_bounds(l, s, path)
         n = z3.If(hi >= lo, hi - lo, z3.IntVal(0))
         out = fresh_list('slice', l.et, fresh('slice_len', I))
         path.hyps.append(atom(out.ln == n))
@@ -853,6 +869,12 @@ class Gen(object):
                                         ('forall', [jv], ('implies', atom(z3.And(lo <= jv, jv < hi)),
                                                           atom(z3.And(jv >= 0, jv < X.ln, jv < Y.ln)))), 'safety', n.lineno)
                             return DOT(X.arr, Y.arr, lo, z3.If(hi >= lo, hi, lo))
+                # sum(X[lo:hi])  ==  the ghost sum(X, lo', hi') with the bounds normalised and clamped as Python does
+                if isinstance(a0, ast.Subscript) and isinstance(a0.slice, ast.Slice) and a0.slice.step is None:
+                    X = ev(a0.value)
+                    if isinstance(X, SList) and not X.nested():
+                        lo, hi = self.slice_bounds(X, a0.slice, path)
+                        return self.sumfn(X)(X.arr, lo, z3.If(hi >= lo, hi, lo))
                 l = ev(a0)
                 if isinstance(l, SList) and not l.nested():
                     return self.sumfn(l)(l.arr, z3.IntVal(0), l.ln)
@@ -870,6 +892,9 @@ class Gen(object):
                         return z3.BoolVal(is_real(v))
                     if isinstance(v, SList):
                         return z3.BoolVal(False)
+                if isinstance(n.args[1], ast.Tuple) and sorted(getattr(e, 'id', '?') for e in n.args[1].elts) == ['list', 'tuple']:
+                    # sequences are lists in the contracts' data model
+                    return z3.BoolVal(isinstance(ev(n.args[0]), (SList, STuple)))
                 raise Unsupported('isinstance')
             if f == 'print' or f == 'str':
                 self.dropped.append('%s() at line %d' % (f, n.lineno))
@@ -1422,6 +1447,12 @@ class Gen(object):
                 # ghost assertions at the end of the body: proved, then available to the invariant proofs
                 f = self.spec(txt, e2)
                 self.oblige('loop%d.hint[%d]@%d' % (k, j, st.lineno), e, f, 'scaffolding', st.lineno)
+                e.hyps.append(f)
+            for j, txt in enumerate(spec.get('asserts', [])):
+                # contract-level assertions at the end of the body (ACSL-style `assert`): part of what is claimed about
+                # the function, stated where the value is produced when the postcondition cannot address it
+                f = self.spec(txt, e2)
+                self.oblige('loop%d.assert[%d]@%d' % (k, j, st.lineno), e, f, 'contract', st.lineno)
                 e.hyps.append(f)
             for j, txt in enumerate(invs):
                 self.oblige('loop%d.inv[%d].preserve@%d' % (k, j, st.lineno), e, self.spec(txt, e2), 'scaffolding', st.lineno)
